@@ -11,15 +11,15 @@
    step lengths, d: the binary32 chord length) and the segment
    last_start -> curr, whose length has the SAME value d, to the path.
    With every step either degenerate (numerically equal end points) or at
-   least 2^-10 long, and coordinates |c| <= 2^20:
-       r >= (1 - alpha) * (exact length of the steps) >= (1 - alpha) * chord
-   (triangle inequality) and  d <= 1.01 chord  or, for a chord below 2^-10
-   with a non-degenerate step,  d < 2^-9 <= 4 r;  in every case  d <= 4 r,
+   least 2^-60 long, and coordinates |c| <= 2^20:
+       r >= (1 - calpha) * (exact length of the steps) >= (1 - calpha) * chord
+   (triangle inequality) and  d <= 1.01 chord  or, for a chord below 2^-60
+   with a non-degenerate step,  d < 2^-59 <= 4 r;  in every case  d <= 4 r,
    so  -(r - d) <= 3/4 d:  a group takes at most 3/4 of what it adds. *)
 From RM Require Import Model.ControlPoints Model.Curve Proofs.FloatFacts Proofs.LengthFacts Proofs.LengthBound
   Proofs.FloatNonneg Proofs.CurveDistNonneg
   Proofs.AdjustExact Proofs.AdjustIEEEBase Proofs.AdjustIEEE Proofs.AdjustIEEESum Proofs.AdjustIEEELen
-  Proofs.CatmullSurplusFold Proofs.CatmullSurplusLen.
+  Proofs.CatmullSurplusFold Proofs.CatmullSurplusLen Proofs.CatmullSurplusSeg.
 From Flocq Require Import Core BinarySingleNaN.
 From Coq Require Import Reals Lra Psatz Lia List.
 Import ListNotations.
@@ -200,9 +200,6 @@ Qed.
 
 (* ---------- one group of removed points ---------- *)
 
-Lemma seg_ok_sym a b : seg_ok a b -> seg_ok b a.
-Proof. intros [E|H]; [left; symmetry; exact E|right; rewrite edist_sym; exact H]. Qed.
-
 Lemma edist_le_22 a b : coord_le a 20 -> coord_le b 20 -> edist (R2 a) (R2 b) <= pw 22.
 Proof.
   intros ((_ & Mxa) & (_ & Mya)) ((_ & Mxb) & (_ & Myb)).
@@ -211,34 +208,34 @@ Proof.
   change (20 + 1)%Z with 21%Z in *. change 22%Z with (21 + 1)%Z. rewrite bpow_plus. change (pw 1) with 2. lra.
 Qed.
 
-Lemma alpha_half k : INR k <= cmax -> 3.01 * u32 <= alpha k <= / 2.
-Proof. intros H. unfold alpha, cmax in *. pose proof (pos_INR k). unfold u32, u64. split; nra. Qed.
+Lemma calpha_half k : INR k <= cmax -> 3.1 * u32 <= calpha k <= / 2.
+Proof. intros H. unfold calpha, cmax in *. pose proof (pos_INR k). unfold u32, u64. split; nra. Qed.
 
 (* the chord of a group against the running sum of its steps *)
 Lemma chord_le_4r (ls curr : Pos) (rem : F64) (E : R) k :
   coord_le ls 20 -> coord_le curr 20 -> INR k <= cmax ->
-  rel (B2R rem) E (alpha k) -> edist (R2 ls) (R2 curr) <= E ->
-  ((E = 0 /\ R2 ls = R2 curr) \/ pw (-10) <= E) ->
+  rel (B2R rem) E (calpha k) -> edist (R2 ls) (R2 curr) <= E ->
+  ((E = 0 /\ R2 ls = R2 curr) \/ pw (-60) <= E) ->
   fin (f64_of_f32 (pdist ls curr)) /\ 0 <= B2R (f64_of_f32 (pdist ls curr)) /\
   B2R (f64_of_f32 (pdist ls curr)) <= 4 * B2R rem.
 Proof.
   intros Hls Hcu Hk Rr Htri Hdeg. unfold pdist.
-  destruct (alpha_half k Hk) as (Al & Au).
+  destruct (calpha_half k Hk) as (Al & Au).
   pose proof (edist_ge0 (R2 ls) (R2 curr)) as E0.
   destruct (seg_len_fin curr ls Hcu Hls) as (Fd & Ed).
   assert (Hnn : 0 <= B2R (f64_of_f32 (plen (psub ls curr)))).
   { apply nn64_B2R_nonneg. apply seg_len_nn. }
   split; [exact Fd|]. split; [exact Hnn|].
-  assert (Hr : E * (1 - alpha k) <= B2R rem).
+  assert (Hr : E * (1 - calpha k) <= B2R rem).
   { pose proof (rel_abs_ge _ _ _ Rr ltac:(lra)) as G. rewrite (Rabs_pos_eq E) in G by lra.
     pose proof (Rle_abs (B2R rem)). destruct Rr as (dd & Ee & Bb). apply Rabs_le_inv in Bb.
     rewrite Ee. nra. }
-  assert (Hok : seg_ok curr ls \/ (edist (R2 ls) (R2 curr) < pw (-10) /\ pw (-10) <= E)).
-  { destruct (Rle_or_lt (pw (-10)) (edist (R2 ls) (R2 curr))) as [H|H].
+  assert (Hok : cseg_ok curr ls \/ (edist (R2 ls) (R2 curr) < pw (-60) /\ pw (-60) <= E)).
+  { destruct (Rle_or_lt (pw (-60)) (edist (R2 ls) (R2 curr))) as [H|H].
     - left. right. rewrite edist_sym. exact H.
     - destruct Hdeg as [(_ & Eq)|H10]; [left; left; symmetry; exact Eq|right; split; assumption]. }
   destruct Hok as [Hok|(Hsmall & H10)].
-  - destruct (seg_rel curr ls Hcu Hls Hok) as (_ & Rd).
+  - destruct (cseg_rel curr ls Hcu Hls Hok) as (_ & Rd).
     pose proof (rel_abs_le _ _ _ Rd) as U. rewrite edist_sym in U.
     rewrite (Rabs_pos_eq (edist _ _)) in U by exact E0.
     rewrite Rabs_pos_eq in U by exact Hnn. unfold u32 in *. nra.
@@ -247,17 +244,17 @@ Proof.
     destruct (S_sub_spec (px ls) (px curr) 21 Fx0 Fx1 ltac:(zl) (abs_sub_bpow _ _ 20 Mx0 Mx1)) as (Fdx & Mdx & Rdx).
     destruct (S_sub_spec (py ls) (py curr) 21 Fy0 Fy1 ltac:(zl) (abs_sub_bpow _ _ 20 My0 My1)) as (Fdy & Mdy & Rdy).
     set (Dx := B2R (px ls) - B2R (px curr)) in *. set (Dy := B2R (py ls) - B2R (py curr)) in *.
-    assert (HS : Dx * Dx + Dy * Dy < pw (-20)).
+    assert (HS : Dx * Dx + Dy * Dy < pw (-120)).
     { pose proof (edist_sq (R2 curr) (R2 ls)) as Q. cbn [R2 fst snd] in Q. fold Dx Dy in Q.
       rewrite edist_sym in Hsmall.
       replace (Dx * Dx + Dy * Dy) with (edist (R2 curr) (R2 ls) ^ 2) by (rewrite Q; ring).
-      change (-20)%Z with (-10 + -10)%Z. rewrite bpow_plus. pose proof (edist_ge0 (R2 curr) (R2 ls)). nra. }
-    pose proof (plen_upper _ _ Dx Dy Fdx Fdy Mdx Mdy Rdx Rdy HS) as U.
+      change (-120)%Z with (-60 + -60)%Z. rewrite bpow_plus. pose proof (edist_ge0 (R2 curr) (R2 ls)). nra. }
+    pose proof (plen_upper60 _ _ Dx Dy Fdx Fdy Mdx Mdy Rdx Rdy HS) as U.
     rewrite Ed. unfold psub.
-    assert (P9 : pw (-9) = 4 * (pw (-10) * / 2)).
-    { change (-9)%Z with (1 + -10)%Z. rewrite bpow_plus. change (pw 1) with 2. lra. }
-    assert (pw (-10) * / 2 <= B2R rem).
-    { apply Rle_trans with (E * (1 - alpha k)); [|exact Hr]. pose proof (bpow_gt_0 radix2 (-10)). nra. }
+    assert (P9 : pw (-59) = 4 * (pw (-60) * / 2)).
+    { change (-59)%Z with (1 + -60)%Z. rewrite bpow_plus. change (pw 1) with 2. lra. }
+    assert (pw (-60) * / 2 <= B2R rem).
+    { apply Rle_trans with (E * (1 - calpha k)); [|exact Hr]. pose proof (bpow_gt_0 radix2 (-60)). nra. }
     lra.
 Qed.
 
@@ -288,17 +285,17 @@ Definition gstate (full : list Pos) (prev : Pos) (lso : option Pos) (rem : F64) 
   | Some ls =>
       coord_le ls 20 /\
       (exists P0 q, full = P0 ++ [q] /\ coord_le q 20 /\ R2 q = R2 ls) /\
-      exists E, fin rem /\ rel (B2R rem) E (alpha k) /\ edist (R2 ls) (R2 prev) <= E /\
-                ((E = 0 /\ R2 ls = R2 prev) \/ pw (-10) <= E) /\ E <= INR k * pw 22
+      exists E, fin rem /\ rel (B2R rem) E (calpha k) /\ edist (R2 ls) (R2 prev) <= E /\
+                ((E = 0 /\ R2 ls = R2 prev) \/ pw (-60) <= E) /\ E <= INR k * pw 22
   end.
 
-Lemma rel_zero k : rel (B2R D.zero) 0 (alpha k).
+Lemma rel_zero k : rel (B2R D.zero) 0 (calpha k).
 Proof.
-  exists 0. split; [cbn; ring|]. rewrite Rabs_R0. unfold alpha. pose proof (pos_INR k). unfold u32, u64. nra.
+  exists 0. split; [cbn; ring|]. rewrite Rabs_R0. unfold calpha. pose proof (pos_INR k). unfold u32, u64. nra.
 Qed.
 
 Theorem simplify_loop_inv l : forall i n prev lso rem acc opt P c k acc' opt',
-  Forall (fun p => coord_le p 20) (prev :: l) -> segs_ok (prev :: l) ->
+  Forall (fun p => coord_le p 20) (prev :: l) -> csegs_ok (prev :: l) ->
   gstate (P ++ acc) prev lso rem k ->
   SInv c (P ++ acc) opt ->
   INR k + INR (length l) <= cmax -> INR c + INR (length l) <= cmax ->
@@ -316,27 +313,27 @@ Proof.
       rewrite simplify_loop_some in H. cbv zeta in H.
       destruct Hg as (Hls & (P0 & q & Efull & Hq & Eq) & (E & Fr & Rr & Htri & Hdeg & HEk)).
       assert (HkS : INR (S k) <= cmax) by (rewrite S_INR; lra).
-      destruct (alpha_half k ltac:(lra)) as (Al & Au).
+      destruct (calpha_half k ltac:(lra)) as (Al & Au).
       (* the step prev -> curr *)
-      destruct (seg_rel curr prev Hcurr Hprev (seg_ok_sym _ _ Hstep)) as (Fs & Rs).
+      destruct (cseg_rel curr prev Hcurr Hprev (cseg_ok_sym _ _ Hstep)) as (Fs & Rs).
       fold (pdist prev curr) in Fs, Rs.
       set (s := f64_of_f32 (pdist prev curr)) in *.
       set (e := edist (R2 curr) (R2 prev)) in *.
       assert (He0 : 0 <= e) by apply edist_ge0.
       assert (He22 : e <= pw 22) by (apply edist_le_22; assumption).
       assert (HE0 : 0 <= E) by (pose proof (edist_ge0 (R2 ls) (R2 prev)); lra).
-      assert (Rsum' : rel (B2R rem + B2R s) (E + e) (alpha k)).
+      assert (Rsum' : rel (B2R rem + B2R s) (E + e) (calpha k)).
       { apply rel_add_nonneg; [exact Rr|eapply rel_weaken; [exact Rs|exact Al]|exact HE0|exact He0]. }
       assert (Msum : Rabs (B2R rem + B2R s) <= pw 60).
       { eapply Rle_trans; [apply (rel_abs_le _ _ _ Rsum')|]. rewrite Rabs_pos_eq by lra.
         rewrite p60. rewrite p22 in *. unfold cmax in *. nra. }
       destruct (D_add_spec rem s 60 Fr Fs ltac:(zl) Msum) as (Fr' & _ & Rr').
-      assert (Rk : rel (B2R (D.add rem s)) (E + e) (alpha (S k))).
-      { eapply rel_weaken; [exact (rel_compose _ _ _ _ _ Rsum' Rr')|]. rewrite alpha_S. pose proof u64_pos. nra. }
+      assert (Rk : rel (B2R (D.add rem s)) (E + e) (calpha (S k))).
+      { eapply rel_weaken; [exact (rel_compose _ _ _ _ _ Rsum' Rr')|]. rewrite calpha_S. pose proof u64_pos. nra. }
       set (rem' := D.add rem s) in *.
       assert (Htri' : edist (R2 ls) (R2 curr) <= E + e).
       { pose proof (edist_triangle (R2 ls) (R2 prev) (R2 curr)) as T. unfold e. rewrite (edist_sym (R2 curr)). lra. }
-      assert (Hdeg' : (E + e = 0 /\ R2 ls = R2 curr) \/ pw (-10) <= E + e).
+      assert (Hdeg' : (E + e = 0 /\ R2 ls = R2 curr) \/ pw (-60) <= E + e).
       { destruct Hstep as [Eqs|Hlen].
         - assert (e = 0) by (unfold e; rewrite Eqs; apply edist_refl).
           destruct Hdeg as [(EZ & Eqp)|H10]; [left; split; [lra|rewrite Eqp; exact Eqs]|right; lra].
@@ -347,7 +344,7 @@ Proof.
         destruct (chord_le_4r ls curr rem' (E + e) (S k) Hls Hcurr HkS Rk Htri' Hdeg') as (Fd & Hd0 & Hd4).
         assert (Hr54 : B2R rem' <= pw 54).
         { pose proof (rel_abs_le _ _ _ Rk) as U. rewrite (Rabs_pos_eq (E + e)) in U by lra.
-          pose proof (Rle_abs (B2R rem')). destruct (alpha_half (S k) HkS) as (_ & Au').
+          pose proof (Rle_abs (B2R rem')). destruct (calpha_half (S k) HkS) as (_ & Au').
           rewrite p54. rewrite p22 in *. rewrite S_INR in *. unfold cmax in *. nra. }
         assert (HLam : Lam (P ++ acc ++ [curr]) = Lam (P ++ acc) + B2R (f64_of_f32 (pdist ls curr))).
         { rewrite app_assoc, Efull, Lam_snoc. f_equal.
